@@ -425,3 +425,53 @@ def pp(t, depth=0):
     if op == "upd":
         return "upd(%s; %s)" % (pp(a[0], d), ", ".join("%s=%s" % (pp_path(r), pp(v, d)) for r, v in a[1]))
     return "%s(%s)" % (op, ", ".join(pp(x, d) if isinstance(x, Term) else repr(x) for x in a))
+
+
+def rebuild(t, mapping, memo=None):
+    """structurally rebuild t with the sub-terms in `mapping` replaced (constructors re-simplify)"""
+    if memo is None:
+        memo = {}
+
+    def go(x):
+        if not isinstance(x, Term):
+            if isinstance(x, tuple):
+                return tuple(go(y) for y in x)
+            return x
+        if x in mapping:
+            return mapping[x]
+        r = memo.get(x)
+        if r is not None:
+            return r
+        op, a = x.op, x.args
+        if op in ("const", "bytes", "param", "fresh", "phi", "undef", "zst", "fnptr", "opaque"):
+            r = x
+        elif op == "deref":
+            r = T.deref(go(a[0]))
+        elif op == "proj":
+            r = T.proj(go(a[0]), go(a[1]))
+        elif op == "payload":
+            r = T.payload(go(a[0]), a[1])
+        elif op == "agg":
+            r = T.agg(a[0], a[1], a[2], a[3], [go(f) for f in a[4]])
+        elif op == "call":
+            r = T.call(a[0], a[1], [go(y) for y in a[2]])
+        elif op == "discr":
+            r = T.discr(go(a[0]))
+        elif op == "len":
+            r = T.length(go(a[0]))
+        elif op == "cast":
+            r = T.cast(a[0], go(a[1]), a[2], a[3])
+        elif op == "un":
+            r = T.un(a[0], go(a[1]), a[2])
+        elif op == "bin":
+            r = T.bin(a[0], go(a[1]), go(a[2]), a[3])
+        elif op == "refval":
+            r = T.refval(go(a[0]))
+        elif op == "ref":
+            r = Term("ref", go(a[0]), go(a[1]))
+        else:
+            r = Term(op, *[go(y) for y in a])
+        memo[x] = r
+        return r
+
+    return go(t)
